@@ -73,11 +73,12 @@ def configs(rng, tier):
     out = [
         {"components": [dev("a", cb={"kind": "period", "p": P}), dev("b", {"i": ["a", "o"]}), dev("c", {"i": ["a", "o"]}), dev("d", {"i": ["b", "o"], "j": ["c", "o"]})]},
         {"components": [dev("src", cb={"kind": "period", "p": P}),
-                        {"name": "sys", "kind": "sys", "inputs": {"x": ["src", "o"]}, "expose": {"y": ["in1", "o"]},
+                        # (a system simulation with an adapter of its own whose io serves until it is cancelled)
+                        {"name": "sys", "kind": "sys", "sys_adapter": True, "inputs": {"x": ["src", "o"]}, "expose": {"y": ["in1", "o"]},
                          "components": [dev("in1", {"i": ["external", "x"]}), dev("in2", cb={"kind": "period", "p": P})]},
                         dev("sink", {"i": ["sys", "y"]})]},
         {"components": [{"name": "o1", "kind": "sys", "inputs": {}, "expose": {"y": ["o2", "y"]}, "components": [
-            {"name": "o2", "kind": "sys", "inputs": {}, "expose": {"y": ["deep", "o"]}, "components": [dev("deep", cb={"kind": "period", "p": P}), dev("deepq")]},
+            {"name": "o2", "kind": "sys", "sys_adapter": True, "inputs": {}, "expose": {"y": ["deep", "o"]}, "components": [dev("deep", cb={"kind": "period", "p": P}), dev("deepq")]},
             dev("mid", {"i": ["o2", "y"]})]}, dev("top", {"i": ["o1", "y"]}), dev("other", cb={"kind": "period", "p": P})]},
     ]
     # nothing ever asks for a callback: after the initial tick the master waits for a wakeup that never comes,
